@@ -61,6 +61,7 @@ def main():
             sys.exit(replay(pid, a.replay))
         mod = importlib.import_module(f"harness.props.{pid.lower()}")
         ctx = Ctx(pid, a.tier)
+        ctx.clear_replays()
         try:
             mod.run(ctx)
         except DriverHang:
